@@ -32,6 +32,25 @@ def fresh_packages(dname):
     return _FRESH[dname]
 
 
+LISTS = {"dag1": [["T", "T2"], ["T2", "C2", "T"], ["LB", "M"]], "dag2": [["P", "Q"], ["Q", "N", "P"]]}
+_FRESH_LISTS = {}
+
+
+def fresh_list_packages(dname):
+    """{tuple of module names: serialized package of to_proto([...])} from fresh builds."""
+    import hdl21 as h
+    from ..build import build
+
+    if dname not in _FRESH_LISTS:
+        out = {}
+        design = dags.DAGS[dname]()
+        for names in LISTS[dname]:
+            built = build(design)
+            out[tuple(names)] = h.to_proto([built.modules[n] for n in names]).SerializeToString(deterministic=True)
+        _FRESH_LISTS[dname] = out
+    return _FRESH_LISTS[dname]
+
+
 def calls_for(design, reduced=False):
     mods = list(design["modules"])
     calls = []
@@ -87,6 +106,14 @@ def _one(item):
             again = h.to_proto(built.modules[top]).SerializeToString(deterministic=True)
             if again != got:
                 return ("not_idempotent", f"second export of {top} differs from the first")
+    # lists of modules, some of which the history has elaborated already: the package of the list is that of a fresh build
+    for names, want in fresh_list_packages(dname).items():
+        try:
+            got = h.to_proto([built.modules[n] for n in names]).SerializeToString(deterministic=True)
+        except Exception as e:
+            return ("export_raised", f"list {list(names)}: {short_exc(e)}")
+        if got != want:
+            return ("differs", f"package of the list {list(names)} differs from the package of a fresh build")
     # an elaborated module still shows its bundle-level ports to new parents
     r = new_parent_check(h, design, built, dname)
     if r:
